@@ -374,8 +374,17 @@ def make_driver(name: str, rnd: random.Random):
         mc = cls(atoms, temperature=T, pressure=special(round(rnd.uniform(0.001, 0.1), 5), 0.0, -0.01, 1.0), external_stress=S, max_cycles=rnd.randint(2, 6), **kw)
     elif name == "GrandCanonical":
         ex = Atoms("CO", positions=[[0, 0, 0], [0, 0, 1.13]])
-        mc = cls(atoms, exchange_atoms=ex, temperature=T, chemical_potential=special(round(rnd.uniform(-1, 1), 4), 0.0, 1.0, -1.0),
-                 number_of_exchange_particles=special(rnd.randint(1, 3), 0), max_cycles=rnd.randint(1, 6), **kw)
+        if rnd.random() < 0.4:
+            # the number of cycles is left at its documented default (one per atom present at construction) and the
+            # simulation is saved after insertions have been accepted: the restart must carry the value in use
+            from quansino.moves.exchange import ExchangeMove
+
+            mc = cls(atoms, exchange_atoms=ex, temperature=900.0, chemical_potential=5.0, number_of_exchange_particles=0, **kw)
+            mc.add_move(ExchangeMove(np.full(len(atoms), -1), bias_towards_insert=0.9), name="exchange")
+            mc.run(rnd.randint(1, 2))
+        else:
+            mc = cls(atoms, exchange_atoms=ex, temperature=T, chemical_potential=special(round(rnd.uniform(-1, 1), 4), 0.0, 1.0, -1.0),
+                     number_of_exchange_particles=special(rnd.randint(1, 3), 0), max_cycles=rnd.randint(1, 6), **kw)
         mc.accessible_volume = round(rnd.uniform(50, 150), 3)
     elif name == "ForceBias":
         import warnings
